@@ -6,8 +6,12 @@ package props
 // relay; oracle = independent decision table written from the property text.
 
 import (
+	"context"
 	"fmt"
+	"github.com/bbockelm/cedar/server"
+	"github.com/bbockelm/cedar/stream"
 	"strings"
+	"verif/netsim"
 
 	"github.com/bbockelm/cedar/security"
 
@@ -168,6 +172,75 @@ func c10Run(res *vlib.Result, ca, sa, ce, se security.SecurityLevel, sh c10Shape
 	res.Outcome(fmt.Sprintf("ok-auth=%v-enc=%v", authRanWire, r.C.Stream.IsEncrypted()))
 }
 
+// c10ServerCmd: the same agreement through server.Server, whose per-command hook makes
+// command `cmd` stricter (authentication and encryption REQUIRED) than the permissive
+// default. Client and server must agree that authentication ran and encryption is on,
+// and the handler must see exactly that - for every command number, 0 included.
+func c10ServerCmd(res *vlib.Result, cmd int) {
+	res.Evals++
+	res.Nontrivial++
+	res.Transitions++
+	ctx := context.Background()
+	def := baseCfg(security.SecurityOptional, security.SecurityOptional, []security.AuthMethod{mCTB}, []security.CryptoMethod{security.CryptoAES}, true)
+	strict := baseCfg(security.SecurityRequired, security.SecurityRequired, []security.AuthMethod{mCTB}, []security.CryptoMethod{security.CryptoAES}, true)
+	srv := server.New(def)
+	srv.SecurityConfigForCommand = func(c int) *security.SecurityConfig {
+		if c == cmd {
+			return strict
+		}
+		return nil
+	}
+	var ran, hAuth, hEnc bool
+	srv.Handle(cmd, func(ctx context.Context, c *server.Conn) error {
+		ran = true
+		if c.Negotiation != nil {
+			hAuth = c.Negotiation.Authentication
+		}
+		hEnc = c.Stream.IsEncrypted()
+		return c.Stream.SendMessage(ctx, []byte("handler-reply"))
+	}, "READ")
+	w := netsim.NewWorld(2)
+	ce, se := netsim.Pipe(w, hsClientAddr, hsServerAddr)
+	done := make(chan error, 1)
+	go func() {
+		defer w.Done()
+		err := srv.ServeConn(ctx, se)
+		se.Close()
+		done <- err
+	}()
+	cc := baseCfg(security.SecurityOptional, security.SecurityOptional, []security.AuthMethod{mCTB}, []security.CryptoMethod{security.CryptoAES}, false)
+	cc.Command = cmd
+	st := stream.NewStream(ce)
+	neg, herr := security.NewAuthenticator(cc, st).ClientHandshake(ctx)
+	var reply []byte
+	var rerr error
+	if herr == nil {
+		reply, rerr = st.ReceiveCompleteMessage(ctx)
+	}
+	ce.Close()
+	w.Done()
+	serr := <-done
+	if neg != nil {
+		security.GetSessionCache().Invalidate(neg.SessionId)
+	}
+	id := fmt.Sprintf("server.Server, command %d with a REQUIRED/REQUIRED per-command policy over an OPTIONAL default, OPTIONAL client", cmd)
+	if herr != nil {
+		res.Violate(fmt.Sprintf("C10/server-cmd/fails-where-table-succeeds/cmd=%d", cmd), "%s: client handshake failed: %v (server: %v)", id, herr, serr)
+		return
+	}
+	if !neg.Authentication || !neg.Encryption || !st.IsEncrypted() {
+		res.Violate(fmt.Sprintf("C10/server-cmd/policy-not-applied/cmd=%d", cmd), "%s: the client was told authentication=%v encryption=%v (stream encrypted %v); the command's policy requires both", id, neg.Authentication, neg.Encryption, st.IsEncrypted())
+	}
+	if !ran || string(reply) != "handler-reply" || rerr != nil {
+		res.Violate(fmt.Sprintf("C10/server-cmd/cannot-exchange/cmd=%d", cmd), "%s: after a handshake the client saw succeed, the handler ran=%v and the client read %q (%v); server returned %v", id, ran, reply, rerr, serr)
+		return
+	}
+	if hAuth != neg.Authentication || hEnc != st.IsEncrypted() {
+		res.Violate(fmt.Sprintf("C10/server-cmd/reports-disagree/cmd=%d", cmd), "%s: handler saw authentication=%v encrypted=%v, client %v/%v", id, hAuth, hEnc, neg.Authentication, st.IsEncrypted())
+	}
+	res.Outcome("server-cmd-ok")
+}
+
 // c10Reuse: one client policy object used for two handshakes in a row (each on a shallow
 // copy, as client.ConnectAndAuthenticateWithConfig makes) against servers with
 // different method lists. The first handshake must leave the caller's policy as it was,
@@ -213,7 +286,7 @@ func c10Reuse(res *vlib.Result, cl, s1, s2 []security.AuthMethod) {
 func C10Plan() *vlib.Plan {
 	p := &vlib.Plan{
 		Property: "C10", Level: "model_checking",
-		Rule:   "E-ENUM: full 4^4 matrix of (client auth, server auth, client enc, server enc) levels x method-list shapes (same, reversed, disjoint, empty either side, unimplemented first/only, token with/without a usable token, SSL only, SSL before CLAIMTOBE - TLS tunnelled through CEDAR messages with a throw-away CA) x {common cipher, none} x {command, auth-only}; each cell runs two real endpoints over an in-memory pipe with a passive frame recorder; cells with a command and a common cipher are also judged on the SECOND connection of a server that resolves the command's policy through ServerConfigForCommand returning one shared object; and one client policy object is reused for two handshakes against servers with different method lists (all 16 ordered pairs over 4 lists x 2 client orders): the policy must be left untouched and the second handshake must follow the table. Oracle = decision table written from the property text (fail/succeed, authentication runs, encryption on, explicit denial) + agreement of both reports + ping/pong. state = policy cell outcome class; transitions = handshakes executed.",
+		Rule:   "E-ENUM: full 4^4 matrix of (client auth, server auth, client enc, server enc) levels x method-list shapes (same, reversed, disjoint, empty either side, unimplemented first/only, token with/without a usable token, SSL only, SSL before CLAIMTOBE - TLS tunnelled through CEDAR messages with a throw-away CA) x {common cipher, none} x {command, auth-only}; each cell runs two real endpoints over an in-memory pipe with a passive frame recorder; cells with a command and a common cipher are also judged on the SECOND connection of a server that resolves the command's policy through ServerConfigForCommand returning one shared object; and one client policy object is reused for two handshakes against servers with different method lists (all 16 ordered pairs over 4 lists x 2 client orders): the policy must be left untouched and the second handshake must follow the table; and server.Server with a stricter per-command policy for command numbers 0, 1, 5, 60007, 2^30. Oracle = decision table written from the property text (fail/succeed, authentication runs, encryption on, explicit denial) + agreement of both reports + ping/pong. state = policy cell outcome class; transitions = handshakes executed.",
 		Assume: []string{"CLAIMTOBE, TOKEN, SSL and the unimplemented PASSWORD stand for the method alphabet (KERBEROS/SCITOKENS need a KDC / an issuer)"},
 	}
 	p.Gen = func(tier string, yield func(vlib.Case)) {
@@ -226,6 +299,13 @@ func C10Plan() *vlib.Plan {
 			names = append(names, s.name)
 		}
 		p.Bounds = map[string]any{"levels": 4, "method_shapes": names}
+		yield(vlib.Case{ID: "server-per-command-policy", Run: func() *vlib.Result {
+			res := &vlib.Result{}
+			for _, cmd := range []int{0, 1, 5, 60007, 1 << 30} {
+				c10ServerCmd(res, cmd)
+			}
+			return res
+		}})
 		lists := [][]security.AuthMethod{{mCTB}, {mTOK}, {mTOK, mCTB}, {mCTB, mTOK}}
 		for _, cl := range lists[2:] {
 			cl := cl
